@@ -793,11 +793,11 @@ func runHelperJob(j helperJob, thorough bool, viol violationSink) helperStats {
 		if T > st.maxStreamCalls {
 			st.maxStreamCalls = T
 		}
-		for _, fl := range []string{flCancel, flDeadline} {
+		for _, fl := range []string{flCancel, flDeadline, flCancelCause} {
 			c.Flavour = fl
 			c.Cancel = -1
 			eval(c)
-			if base.panicked != "" || (!j.Small && fl == flDeadline) {
+			if base.panicked != "" || (!j.Small && fl != flCancel) {
 				continue // boundary lengths: the mid-run instants in the cancel flavour only
 			}
 			for k := 1; k <= T; k++ {
@@ -828,7 +828,7 @@ func fileLimitCases(viol violationSink) (evals int64, outcomes map[string]int64)
 				continue
 			}
 			for _, api := range []string{"ReadFileWithContextAndLimits", "ReadFileContent"} {
-				for _, pre := range []string{"", flCancel, flDeadline} {
+				for _, pre := range append([]string{""}, preFlavours...) {
 					mem := afero.NewMemMapFs()
 					_ = afero.WriteFile(mem, "/f.bin", sourceBytes[:l], 0o644)
 					fs := filesystem.NewVirtualFileSystem(mem, filesystem.InMemoryFS, filesystem.IdentityPathConverterFunc)
